@@ -104,3 +104,75 @@ def probe(ctx, res, props, runs, cases=None):
                     res.fail("failure-not-surfaced", case, dict(got=box.get("out")))
             elif not (isinstance(box["exc"], ValueError) and box["exc"].args == (failing,)) and "C04" in props:
                 res.fail("wrong-exception:" + type(box["exc"]).__name__, case, repr(box["exc"]))
+
+
+def process_probe(ctx, res, props, runs, cases=None):
+    """C04 on the real process backends: a raising task must make the call raise (the task's own exception when it
+    can be pickled), the call must terminate, and the same object must be reusable afterwards."""
+    if "C04" not in props:
+        return
+    joblib = core.use_repo()
+    from . import native_tasks as T
+    rng = ctx.rng("native-process")
+    combos = [(b, k) for b in ("multiprocessing", "loky") for k in ("plain", "unpicklable")]
+    rng.shuffle(combos)
+    import os
+    saved_err = os.dup(2)
+    devnull = os.open(os.devnull, os.O_WRONLY)
+    os.dup2(devnull, 2)  # worker processes print the task tracebacks on the inherited stderr
+    try:
+        _process_probe(ctx, res, joblib, T, rng, combos, runs, cases)
+    finally:
+        os.dup2(saved_err, 2)
+        os.close(saved_err)
+        os.close(devnull)
+
+
+def _process_probe(ctx, res, joblib, T, rng, combos, runs, cases):
+    for r in range(runs if cases is None else len(cases)):
+        backend, kind = combos[r % len(combos)]
+        n = rng.choice([4, 6, 9])
+        bad = rng.randrange(n)
+        managed = rng.random() < 0.5
+        if cases is not None:
+            c = cases[r]
+            backend, kind, n, bad, managed = c["backend"], c["exception"], c["n"], c["failing"], c["managed"]
+        case = dict(kind="native-process", backend=backend, exception=kind, n=n, failing=bad, managed=managed)
+        box = {}
+
+        def body():
+            fn = T.bad_plain if kind == "plain" else T.bad_unpicklable
+            p = joblib.Parallel(n_jobs=2, backend=backend)
+            if managed:
+                p.__enter__()
+            try:
+                try:
+                    box["first"] = ("returned", p(joblib.delayed(fn if i == bad else T.ok)(i) for i in range(n)))
+                except BaseException as e:  # noqa: BLE001
+                    box["first"] = ("raised", type(e).__name__, e.args[:1])
+                try:
+                    box["second"] = ("returned", p(joblib.delayed(T.ok)(i) for i in range(3)))
+                except BaseException as e:  # noqa: BLE001
+                    box["second"] = ("raised", type(e).__name__, e.args[:1])
+            finally:
+                if managed:
+                    p.__exit__(None, None, None)
+
+        t = threading.Thread(target=body, daemon=True)
+        t.start()
+        t.join(60)
+        res.evaluations += 1
+        res.count("native-process-runs")
+        res.nontrivial.add(("native-process", backend, kind, n, bad, managed))
+        if t.is_alive():
+            res.fail("call-never-returns", case, dict(box=box, note="native process-backend run did not finish within 60 s"))
+            continue
+        first, second = box.get("first"), box.get("second")
+        if not first or first[0] != "raised":
+            res.fail("failure-not-surfaced", case, dict(first=first))
+        elif kind == "plain" and first[1:] != ("ValueError", (bad,)):
+            res.fail("wrong-exception:" + first[1], case, dict(first=first))
+        elif kind == "unpicklable" and first[1] != "Busy":
+            res.fail("unpicklable-task-exception-replaced:" + backend, case, dict(first=first))
+        if second != ("returned", [0, 3, 6]):
+            res.fail("not-reusable-after-failure", case, dict(second=second))
